@@ -6,4 +6,9 @@ HARNESSES = [
          cases=[dict(name="step", defs={})]),
     COMMON["dec12"]("epoch_gate", ["C16"], COMMON["dec12_cases"](None, 40, dtls_only=("dtls10", "dtls12n")) + COMMON["dec12_cases"](None, 56, tier="thorough")),
 ]
-PROPERTY = dict(level="model_checking", explanation="", bounds="", outside="", assumptions=[])
+PROPERTY = dict(level='model_checking',
+    claim='Anti-replay window: inductive step with a ghost sequence number - a sequence number already accepted in the epoch is never accepted again and the window invariant is preserved; records of another epoch reach decrypt only in the documented catch-up cases; an epoch change resets the window.',
+    bounds='all 48-bit sequence numbers (low 32 bits as the code compares), 40-byte datagrams',
+    outside='liveness (handshake completion under loss, retransmission timers), handshake message_seq de-duplication and fragment reassembly are not encoded',
+    explanation='Anti-replay window: inductive step with a ghost sequence number - a sequence number already accepted in the epoch is never accepted again and the window invariant is preserved; records of another epoch reach decrypt only in the documented catch-up cases; an epoch change resets the window.',
+    assumptions=[])
